@@ -703,13 +703,22 @@ impl Exec {
             });
             Some(m)
         } else {
-            if section == SEC_Q {
-                // a full record cannot be "appended to the question section": nothing to state
-                return None;
-            }
             let (rec, end, _) = decode_record(rr_bytes, 0).ok()?;
             if end != rr_bytes.len() {
                 return None;
+            }
+            if section == SEC_Q {
+                // record text aimed at the question section: what a question can hold of it is
+                // its name, type and class
+                if m.q.is_some() {
+                    return None;
+                }
+                m.q = Some(Question {
+                    name: rec.name,
+                    qtype: rec.rtype,
+                    qclass: rec.class,
+                });
+                return Some(m);
             }
             m.section_mut(section).push(rec);
             Some(m)
@@ -744,7 +753,12 @@ impl Exec {
         let (expected, rr_len) = match &rr {
             Some(rr) => (
                 self.expected_after_insert(section, &rr.packet, false),
-                rr.packet.len(),
+                if section == SEC_Q {
+                    // only name, type and class go into the question section
+                    decode_plain_name(&rr.packet, 0).map(|(_, e)| e + 4).unwrap_or(rr.packet.len())
+                } else {
+                    rr.packet.len()
+                },
             ),
             None => (None, 0),
         };
